@@ -375,7 +375,7 @@ def gen_ext(rng, spec, layout):
             its = []  # MAXEVAL=0: only the special rows (tests/testdata/.../maxeval0.ext)
         else:
             n_it = rng.randint(1, 5)
-            step = rng.choice([1, 1, 2, 5, 10])
+            step = rng.choice([1, 1, 2, 5, 10, 250, 5000])
             its = sorted(set([0] + [step * i for i in range(1, n_it)] + [step * (n_it - 1) + rng.randint(0, step)]))
         lastvals, lastobj = est_values(True), _draw_obj(rng, prof)
         for it in its:
@@ -416,8 +416,12 @@ def gen_ext(rng, spec, layout):
                 sd.append(math.sqrt(v) if v >= 0 else 0.0)
             else:
                 vi, vj = fin[f"{pre}({i},{i})"], fin[f"{pre}({j},{j})"]
-                sd.append(v / math.sqrt(vi * vj) if vi > 0 and vj > 0 and math.isfinite(v / math.sqrt(vi * vj))
-                          and abs(v / math.sqrt(vi * vj)) < 1e90 else 0.0)
+                cr = 0.0
+                if vi > 0 and vj > 0 and math.sqrt(vi) * math.sqrt(vj) > 0:
+                    cr = v / (math.sqrt(vi) * math.sqrt(vj))
+                    if not math.isfinite(cr) or abs(cr) >= 1e90 or abs(cr) < 1e-90:
+                        cr = 0.0  # keeps every field within the 2-digit exponent layout
+                sd.append(cr)
         tab["special"][SDCORR] = row(SDCORR, sd, 0.0)
         if has_se:
             sesd = [0.0 if lab.startswith("THETA") else (1e10 if elems[canon(lab)]["fix"] else draw(rng, prof, sign="pos"))
@@ -613,10 +617,15 @@ def gen_lst(rng, spec, model_text, ext_truth, layout):
     h, m, s = rng.randint(0, 22), rng.randint(0, 59), rng.randint(0, 59)
     dur = rng.randint(0, 3000)
     day = rng.randint(1, 27)
-    start = f"Sat Sep {day:2d} {h:02d}:{m:02d}:{s:02d} CEST 2018"
     tot = h * 3600 + m * 60 + s + dur
     dd, rem = divmod(tot, 86400)
-    stop = f"Sat Sep {day + dd:2d} {rem // 3600:02d}:{rem % 3600 // 60:02d}:{rem % 60:02d} CEST 2018"
+    hh, mm, ss = rem // 3600, rem % 3600 // 60, rem % 60
+    if rng.random() < 0.5:
+        start = f"Sat Sep {day:2d} {h:02d}:{m:02d}:{s:02d} CEST 2018"
+        stop = f"Sat Sep {day + dd:2d} {hh:02d}:{mm:02d}:{ss:02d} CEST 2018"
+    else:  # the locale of tests/testdata/nonmem/pheno_real.lst
+        start = f"l\u00f6r {day:2d} sep 2018 {h:02d}:{m:02d}:{s:02d} CEST"
+        stop = f"l\u00f6r {day + dd:2d} sep 2018 {hh:02d}:{mm:02d}:{ss:02d} CEST"
     L = [start, model_text.rstrip("\n"), "", "NM-TRAN MESSAGES", "  ",
          " WARNINGS AND ERRORS (IF ANY) FOR PROBLEM    1", "             ",
          " (WARNING  2) NM-TRAN INFERS THAT THE DATA ARE POPULATION.", "",
@@ -641,19 +650,29 @@ def gen_lst(rng, spec, model_text, ext_truth, layout):
                   " NPARAMETR:  4.6931E-03  1.0092E+00", " PARAMETER:  1.0000E-01  1.0000E-01",
                   " GRADIENT:   6.5761E+00  4.6216E+01", ""]
             L += [" #TERM:"]
-            outcome = rng.choice(["ok", "ok", "ok", "rounding", "maxevals"])
+            outcome = rng.choice(["ok", "ok", "ok", "however", "rounding", "rounding_unrep", "maxevals"])
             fe = rng.randint(1, 9999)
             sdg = rng.randint(10, 99) / 10
             if outcome == "ok":
                 L += ["0MINIMIZATION SUCCESSFUL"]
                 stt.update(success=True, cause=None)
-            elif outcome == "rounding":
+            elif outcome == "however":
+                L += ["0MINIMIZATION SUCCESSFUL", " HOWEVER, PROBLEMS OCCURRED WITH THE MINIMIZATION.",
+                      " REGARD THE RESULTS OF THE ESTIMATION STEP CAREFULLY, AND ACCEPT THEM ONLY",
+                      " AFTER CHECKING THAT THE COVARIANCE STEP PRODUCES REASONABLE OUTPUT."]
+                stt.update(success=True, cause=None)
+            elif outcome.startswith("rounding"):
                 L += ["0MINIMIZATION TERMINATED", " DUE TO ROUNDING ERRORS (ERROR=134)"]
                 stt.update(success=False, cause="rounding_errors")
             else:
                 L += ["0MINIMIZATION TERMINATED", " DUE TO MAX. NO. OF FUNCTION EVALUATIONS EXCEEDED"]
                 stt.update(success=False, cause="maxevals_exceeded")
-            L += [f" NO. OF FUNCTION EVALUATIONS USED:{fe:9d}", f" NO. OF SIG. DIGITS IN FINAL EST.:{sdg:5.1f}"]
+            L += [f" NO. OF FUNCTION EVALUATIONS USED:{fe:9d}"]
+            if outcome == "rounding_unrep":
+                L += [" NO. OF SIG. DIGITS UNREPORTABLE"]
+                sdg = float("nan")
+            else:
+                L += [f" NO. OF SIG. DIGITS IN FINAL EST.:{sdg:5.1f}"]
             stt.update(fevals=fe, sigdigs=sdg)
         else:
             L += [" iteration            0  OBJ=   729.67415857921799 eff.=     305. Smpl.=     300. Fit.= 0.96318", ""]
